@@ -98,9 +98,13 @@ def run_property(pid, spec, tier, repo=None):
     lines = []
     ctx = Ctx(repo)
     per_rule = {}
+    errors = []   # a rule that cannot decide must not hide what the other rules found
     for rule_fn in spec['rules']:
         before = len(ctx.obs)
-        rule_fn(ctx)
+        try:
+            rule_fn(ctx)
+        except AnalysisError as e:
+            errors.append('%s: %s' % (rule_fn.__name__, e))
         per_rule.setdefault(rule_fn.__name__, 0)
         per_rule[rule_fn.__name__] += len(ctx.obs) - before
     obs = [o for o in ctx.obs if not o.note]
@@ -111,8 +115,8 @@ def run_property(pid, spec, tier, repo=None):
         counts[o.rule] = counts.get(o.rule, 0) + 1
     for rule, floor in spec.get('min', {}).items():
         if counts.get(rule, 0) < floor:
-            raise AnalysisError('rule %s matched %d instance(s), fewer than the %d confirmed by hand '
-                                '(anchor vanished or shape unrecognised)' % (rule, counts.get(rule, 0), floor))
+            errors.append('rule %s matched %d instance(s), fewer than the %d confirmed by hand '
+                          '(anchor vanished or shape unrecognised)' % (rule, counts.get(rule, 0), floor))
     known = [k for k in load_known()['findings'] if k['property'] == pid]
     kidx = {(k['rule'], k['func'], k['key']): k for k in known}
     failing = [o for o in obs if not o.ok]
@@ -193,6 +197,14 @@ def run_property(pid, spec, tier, repo=None):
         'wall_s': round(time.time() - t0, 3),
         'violations': len(violations),
     }
+    ev['coverage']['undecided'] = errors
+    if errors and not violations:
+        # nothing is believed from a run in which a rule could not decide: exit 2, no evidence written
+        for e in errors:
+            lines.append('ANALYSIS-ERROR: property=%s %s' % (pid, e))
+        return 2, ev, lines, ctx
+    for e in errors:
+        lines.append('NOTE: undecided (analysis error) %s' % e)
     return (1 if violations else 0), ev, lines, ctx
 
 
